@@ -4,10 +4,10 @@ CONSTANTS
   MaxBatch = 1
   MaxOps = 8
   MaxEpoch = 1
-  CapSet = {1, 2}
-  KeySet = {"nil", "empty", "a"}
+  CapSet = {2, 3}
+  KeySet = {"nil", "empty", "a", "b"}
   AgeSet = {0}
-  MsgsSet = {0}
+  MsgsSet = {0, 3}
   BytesSet = {0}
   CompactSet = {TRUE}
   LagSet = {0}
